@@ -193,7 +193,10 @@ def concretise(scn, seed=0):
             raise Unrealisable("shared weight forced to FULLY_CONNECTED and used by a convolution")
           k = wgroup[key]
         wgroup[key] = k
-      cs.append(members[k])
+      code = members[k]
+      if code == "RSQRT" and o["ins"][0] not in sub["gins"]:
+        code = "GELU"     # RSQRT only directly on a graph input (the harnesses feed positive data): no NaN activations
+      cs.append(code)
     codes.append(cs)
   return codes
 
